@@ -2,3 +2,9 @@
 import VirtioVerif.Model.Proto
 import VirtioVerif.Model.Layout
 import VirtioVerif.Props.C06
+import VirtioVerif.Model.AbsQueue
+import VirtioVerif.Model.Bytes
+import VirtioVerif.Model.Blk
+import VirtioVerif.Lemmas.AbsQueue
+import VirtioVerif.Spec.Blk
+import VirtioVerif.Props.C14
